@@ -204,6 +204,13 @@ theorem untraced_component_has_no_brand (t : CollectTy.Table) (hu : t.untracedSt
     CollectTy.isStatic t (args (pos j)) = true ∧ CollectTy.ptrsOf (elem j) = [] :=
   CollectTy.no_hidden_brand t hu e en he args len pos elem h j hj hnt
 
+/-- Lower bound (a translator that silently drops rows cannot make `no_collect_impl_hides_brand`
+vacuous): at least 50 impls, at least 20 of them with a `'static`-bounded parameter or `Self: 'static`. -/
+theorem required_collect_rows :
+    Generated.collectTable.entries.length ≥ 50 ∧
+    (Generated.collectTable.entries.filter (fun e => e.selfStatic || !e.staticParams.isEmpty)).length ≥ 20 ∧
+    Generated.collectTable.unclassified = [] := by decide +kernel
+
 /-- The delivered mutant (`S: 'static` ↦ `S: 'gc` on `Collect for HashMap<K, V, S>`) is rejected by
 the rule, the crate's entry is accepted. -/
 theorem hasher_mutant_witness :
@@ -230,7 +237,50 @@ theorem static_collect_templates_ok :
     (Generated.macroImpls.filter (fun t => t.macroName == "static_collect")).all
       MacroImpls.Template.ok = true := by decide
 
-/-- What the rule buys (every template, every instantiation): if the user-supplied type mentions a
+/-- **Client instantiations hide no brand.**  Extend the crate's impl table by the impls clients
+obtain from any arms of the exported macros in the current source (`Template.toEntry`: any number of
+declared parameters, the user-supplied type mentioning the brand or not): the extended table still
+satisfies the untraced-static rule, so a component of a well-typed value that a `trace` — provided
+or macro-generated — does not visit has a `'static` type and contains no arena pointer. -/
+theorem template_instances_hide_no_brand (is : List (MacroImpls.Template × MacroImpls.Inst))
+    (hmem : ∀ p, p ∈ is → p.1 ∈ Generated.macroImpls)
+    (e : Nat) (en : CollectTy.Entry)
+    (he : (MacroImpls.withInstances Generated.collectTable is).entry? e = some en)
+    (args : Nat → CollectTy.Ty) (len : Nat) (pos : Nat → Nat) (elem : Nat → CollectTy.Val)
+    (h : CollectTy.HasType (MacroImpls.withInstances Generated.collectTable is) (.node len pos elem) (.app e args))
+    (j : Nat) (hj : j < len) (hnt : en.traced.contains (pos j) = false) :
+    CollectTy.isStatic (MacroImpls.withInstances Generated.collectTable is) (args (pos j)) = true ∧
+      CollectTy.ptrsOf (elem j) = [] :=
+  CollectTy.no_hidden_brand _
+    (MacroImpls.withInstances_untracedStatic _ no_collect_impl_hides_brand _ (by decide) is hmem)
+    e en he args len pos elem h j hj hnt
+
+/-- … and a macro-generated impl for a type that itself mentions the brand is a complete row: the
+brand is traced under a true `NEEDS_TRACE`, or the row demands `Self: 'static`. -/
+theorem template_instance_complete (t : MacroImpls.Template) (ht : t ∈ Generated.macroImpls)
+    (i : MacroImpls.Inst) : (t.toEntry i).complete = true ∧ (t.toEntry i).untracedStatic = true :=
+  MacroImpls.Template.toEntry_ok t
+    (List.all_eq_true.mp (by decide : Generated.macroImpls.all MacroImpls.Template.ok = true) t ht) i
+
+/-- Non-vacuity on the generated rows 0 and 1 (`static_collect!`): instantiated at a
+brand-mentioning type they demand `Self: 'static` and hold no pointer field; the seeded template
+holds one that nothing traces. -/
+example :
+    (Generated.macroImpls[0]?.map (fun t => (t.toEntry { brandFree := false, nparams := 1 }).selfStatic)) = some true ∧
+    (Generated.macroImpls[0]?.map (fun t => (t.toEntry { brandFree := false, nparams := 1 }).ptrFields)) = some [] ∧
+    (Generated.macroImpls[2]?.map (fun t => (t.toEntry { brandFree := false, nparams := 1 }).untracedStatic)) = some true ∧
+    (MacroImpls.Example.staticCollectArm0Mutant.toEntry { brandFree := false, nparams := 1 }).ptrFields = ["'gc"] ∧
+    (MacroImpls.Example.staticCollectArm0Mutant.toEntry { brandFree := false, nparams := 1 }).tracedFields = [] := by
+  decide
+
+/-- The `Example` rows of the mutant-witness theorem are the generated rows. -/
+example : Generated.macroImpls[0]? = some MacroImpls.Example.staticCollectArm0 ∧
+    Generated.macroImpls[2]? = some MacroImpls.Example.dynCollectArm0 := by decide
+
+/-- *Definitional reading of the rule* (re-reads conjuncts of `Template.ok`; the "root bound rejects
+it" half is prose, its assurance comes from the template probes `c12-template-*`; the semantic
+statements are `template_instances_hide_no_brand` / `template_instance_complete`).
+What the rule buys (every template, every instantiation): if the user-supplied type mentions a
 brand, the generated impl is not brand-generic — so no generative callback and no root bound
 accepts it — or it traces with `NEEDS_TRACE = true`. -/
 theorem template_impl_is_static_or_traces (t : MacroImpls.Template) (h : t.ok = true)
@@ -246,8 +296,9 @@ theorem static_collect_mutant_witness :
     MacroImpls.Example.staticCollectArm0Mutant.ok = false ∧
     ∃ i : MacroImpls.Inst, i.brandFree = false ∧
       MacroImpls.Example.staticCollectArm0Mutant.brandGeneric i = true ∧
-      MacroImpls.Example.staticCollectArm0Mutant.reportsNothing = true :=
-  ⟨by decide, by decide, MacroImpls.unlicensed_hides _ (by decide) (by decide)⟩
+      MacroImpls.Example.staticCollectArm0Mutant.reportsNothing = true ∧
+      (MacroImpls.Example.staticCollectArm0Mutant.toEntry { i with nparams := 1 }).complete = false :=
+  ⟨by decide, by decide, { brandFree := false }, rfl, by decide, by decide, by decide⟩
 
 /-! ## The clause "a branded value cannot stay behind in the root", over the type-shape model
 
